@@ -47,7 +47,7 @@ mod gaps {
     }
 
     pub fn gen_case(r: &mut Rng) -> Case {
-        let kind = r.below(6);
+        let kind = r.below(7);
         Case { kind, a: r.below(64), b: r.below(64), c: r.below(64), d: r.below(8),
                script: (0..r.range(1, 8)).map(|_| (r.below(6), r.range(1, 30))).collect() }
     }
@@ -64,7 +64,8 @@ mod gaps {
             2 => leak(c),
             3 => full(c),
             4 => overflow(c),
-            _ => refused(c),
+            5 => refused(c),
+            _ => small_paths(c),
         }
     }
 
@@ -347,6 +348,45 @@ mod gaps {
             }};
         }
         if c.d % 2 == 0 { with!(true) } else { with!(false) }
+        notes
+    }
+
+    // ------------------------------------------------------------------------------------------
+    // short-cut branches: zero-sized values through alloc_try_with(_mut) / alloc_uninit never touch the arena;
+    // the `args.as_str()` fast path of the formatting helpers gives what the general path gives
+    fn small_paths(c: &Case) -> Vec<String> {
+        let mut notes = vec![];
+        let head = format!("small-paths: k={}", c.a % 8);
+        let mut bump: Bump = Bump::new();
+        bump.alloc(1u8);
+        let before = (bump.stats().allocated(), bump.stats().count());
+        let pos = |b: &Bump| b.stats().current_chunk().map(|c| c.bump_position().as_ptr() as usize);
+        let p0 = pos(&bump);
+        match c.a % 8 {
+            0 => { let r: Result<BumpBox<()>, u8> = bump.alloc_try_with(|| Ok(())); if r.is_err() { notes.push(format!("{head}: contents differ from std::vec::Vec: alloc_try_with(Ok(())) gave Err")); } }
+            1 => { let r: Result<BumpBox<()>, u8> = bump.alloc_try_with(|| Err(7)); if !matches!(r, Err(7)) { notes.push(format!("{head}: contents differ from std::vec::Vec: alloc_try_with(Err(7)) lost the error")); } }
+            2 => { let r: Result<BumpBox<()>, u8> = bump.alloc_try_with_mut(|| Ok(())); if r.is_err() { notes.push(format!("{head}: contents differ from std::vec::Vec: alloc_try_with_mut(Ok(())) gave Err")); } }
+            3 => { let r: Result<BumpBox<()>, u8> = bump.alloc_try_with_mut(|| Err(9)); if !matches!(r, Err(9)) { notes.push(format!("{head}: contents differ from std::vec::Vec: alloc_try_with_mut(Err(9)) lost the error")); } }
+            4 => { let b = bump.alloc_uninit::<()>(); let _ = b.init(()); let b2 = bump.try_alloc_uninit::<[u64; 0]>(); if b2.is_err() { notes.push(format!("{head}: a failed reserve: try_alloc_uninit of a zero-sized type failed")); } }
+            _ => {}
+        }
+        if c.a % 8 <= 4 && ((bump.stats().allocated(), bump.stats().count()) != before || pos(&bump) != p0) {
+            notes.push(format!("{head}: helpers: position moved: a zero-sized value changed the arena ({before:?} -> ({}, {}))", bump.stats().allocated(), bump.stats().count()));
+        }
+        if c.a % 8 >= 5 {
+            let lit = ["", "a", "plain literal \u{e9}\u{4e16}"][(c.b % 3) as usize];
+            let n = c.c;
+            let a: &str = bump.alloc_fmt(format_args!("plain literal \u{e9}\u{4e16}")).into_ref();
+            let b: &str = bump.alloc_fmt(format_args!("{}{n}", lit)).into_ref();
+            if a != "plain literal \u{e9}\u{4e16}" || b != format!("{lit}{n}") { notes.push(format!("{head}: contents differ from std::vec::Vec: alloc_fmt gave {a:?} / {b:?}")); }
+            let (ap, al) = (a.as_ptr() as usize, a.len());
+            let a2 = bump.alloc_cstr_fmt(format_args!("c literal"));
+            if a2.to_bytes() != b"c literal" { notes.push(format!("{head}: contents differ from std::vec::Vec: alloc_cstr_fmt(literal) gave {:?}", a2)); }
+            let a3: String = bump.alloc_fmt_mut(format_args!("mut literal")).into_ref().to_string();
+            let a4 = bump.alloc_cstr_fmt_mut(format_args!("mut c\0tail")).to_bytes().to_vec();
+            if a3 != "mut literal" || a4 != b"mut c" { notes.push(format!("{head}: contents differ from std::vec::Vec: the *_mut formatting helpers gave {a3:?} / {a4:?}")); }
+            if unsafe { core::slice::from_raw_parts(ap as *const u8, al) } != "plain literal \u{e9}\u{4e16}".as_bytes() { notes.push(format!("{head}: an older allocation changed")); }
+        }
         notes
     }
 
